@@ -8,15 +8,15 @@ open Rx Rx.Gen.Last
 def absLast (g : LastObserver) : St1 := .last g.last
 
 theorem tie_Last_next (g : LastObserver) (v : Val) :
-    (LastObserver.next g v).map (fun r => (absLast r.1, r.2)) = some (St1.onNext (absLast g) v) := by
+    (LastObserver.next g v).map (fun r => (absLast r.1, r.2)) = some (Rs.lift (St1.onNext (absLast g) v)) := by
   rcases g with ⟨⟩ <;> rs_tie [LastObserver.next, absLast, St1.onNext]
 
 theorem tie_Last_error (g : LastObserver) (e : Err) :
-    (LastObserver.error g e).map (fun r => r.2) = some (St1.onError' (absLast g) e).2 := by
+    (LastObserver.error g e).map (fun r => r.2) = some ((St1.onError' (absLast g) e).2.map Rs.Ev.n) := by
   rcases g with ⟨⟩ <;> rs_tie [LastObserver.error, absLast, St1.onError']
 
 theorem tie_Last_complete (g : LastObserver) :
-    (LastObserver.complete g).map (fun r => r.2) = some (St1.onComplete' (absLast g)).2 := by
+    (LastObserver.complete g).map (fun r => r.2) = some ((St1.onComplete' (absLast g)).2.map Rs.Ev.n) := by
   rcases g with ⟨⟩ <;> rs_tie [LastObserver.complete, absLast, St1.onComplete']
 
 
